@@ -15,6 +15,7 @@ import (
 	"go/printer"
 	"go/token"
 	"path/filepath"
+	"regexp"
 	"strings"
 
 	"verif/harness/hx"
@@ -31,16 +32,22 @@ func morassFacts(repo string) (string, error) {
 		printer.Fprint(&sb, fset, n)
 		return strings.Join(strings.Fields(sb.String()), " ")
 	}
+	// The facts are looked for in *every* method of the file and with the receiver / local names
+	// abstracted, so that extracting a block into an unexported helper, renaming a local or
+	// re-nesting a branch (rewrites that change nothing observable) leaves them unchanged.
 	funcs := map[string]*ast.FuncDecl{}
+	var all []*ast.FuncDecl
 	for _, d := range file.Decls {
 		if fd, ok := d.(*ast.FuncDecl); ok && fd.Recv != nil && fd.Body != nil {
 			funcs[fd.Name.Name] = fd
+			all = append(all, fd)
 		}
 	}
-	for _, n := range []string{"Push", "Finalise", "write"} {
-		if funcs[n] == nil {
-			return "", fmt.Errorf("method %s not found in morass.go", n)
-		}
+	if funcs["Push"] == nil || funcs["Finalise"] == nil {
+		return "", fmt.Errorf("methods Push/Finalise not found in morass.go")
+	}
+	isHook := func(t string) bool {
+		return strings.HasPrefix(t, "verifStep(") || strings.HasPrefix(t, "defer verifStep(")
 	}
 	// every statement list of a function, with the statements rendered (hook calls removed)
 	lists := func(fd *ast.FuncDecl) [][]string {
@@ -59,7 +66,7 @@ func morassFacts(repo string) (string, error) {
 				var l []string
 				for _, s := range stmts {
 					t := src(s)
-					if strings.HasPrefix(t, "verifStep(") || strings.HasPrefix(t, "defer verifStep(") {
+					if isHook(t) {
 						continue
 					}
 					l = append(l, t)
@@ -69,6 +76,10 @@ func morassFacts(repo string) (string, error) {
 			return true
 		})
 		return out
+	}
+	var everywhere [][]string
+	for _, fd := range all {
+		everywhere = append(everywhere, lists(fd)...)
 	}
 	has := func(ls [][]string, pred func(l []string, i int) bool) bool {
 		for _, l := range ls {
@@ -80,46 +91,67 @@ func morassFacts(repo string) (string, error) {
 		}
 		return false
 	}
-	count := func(ls [][]string, stmt string) int {
+	count := func(ls [][]string, re *regexp.Regexp) int {
 		n := 0
 		for _, l := range ls {
 			for _, s := range l {
-				if s == stmt {
+				if re.MatchString(s) {
 					n++
 				}
 			}
 		}
 		return n
 	}
-	push, fin, wr := lists(funcs["Push"]), lists(funcs["Finalise"]), lists(funcs["write"])
-
-	// Push: `m.writable <- m.chunk`, `m.writers.Add(1)`, `go m.write()` consecutively, in the caller
-	pushOK := has(push, func(l []string, i int) bool {
-		return i+2 < len(l) && l[i] == "m.writable <- m.chunk" && l[i+1] == "m.writers.Add(1)" && l[i+2] == "go m.write()"
-	}) && count(push, "go m.write()") == 1
-	// no other `go` statement anywhere in Push
-	goCount := 0
-	ast.Inspect(funcs["Push"].Body, func(n ast.Node) bool {
-		if _, ok := n.(*ast.GoStmt); ok {
-			goCount++
+	var (
+		reSend   = regexp.MustCompile(`^(\w+)\.writable <- (\w+)\.chunk$`)
+		reAdd    = regexp.MustCompile(`^(\w+)\.writers\.Add\(1\)$`)
+		reGo     = regexp.MustCompile(`^go (\w+)\.(\w+)\(\)$`)
+		reWait   = regexp.MustCompile(`^(\w+)\.writers\.Wait\(\)$`)
+		reDone   = regexp.MustCompile(`^defer (\w+)\.writers\.Done\(\)$`)
+		reLock   = regexp.MustCompile(`^(\w+)\.filesLock\.Lock\(\)$`)
+		reUnlock = regexp.MustCompile(`^(\w+)\.filesLock\.Unlock\(\)$`)
+		reAppend = regexp.MustCompile(`^(\w+)\.files = append\((\w+)\.files, \w+\)$`)
+	)
+	// the one `go` statement of the file: `send chunk; writers.Add(1); go m.<writer>()` consecutive
+	// in the goroutine that spawns (so the writer is counted before it exists)
+	writer := ""
+	pushOK := has(everywhere, func(l []string, i int) bool {
+		if i+2 < len(l) && reSend.MatchString(l[i]) && reAdd.MatchString(l[i+1]) && reGo.MatchString(l[i+2]) {
+			writer = reGo.FindStringSubmatch(l[i+2])[2]
+			return true
 		}
-		return true
+		return false
 	})
-	pushOK = pushOK && goCount == 1
-	// Finalise: Add(1) directly before the synchronous m.write(), m.writers.Wait() directly after
-	finOK := has(fin, func(l []string, i int) bool {
-		return i+2 < len(l) && l[i] == "m.writers.Add(1)" && l[i+1] == "m.write()" && l[i+2] == "m.writers.Wait()"
-	})
-	// write: the first statement defers Done
-	first := ""
-	if b := funcs["write"].Body.List; len(b) > 0 {
-		first = src(b[0])
+	goCount := 0
+	for _, fd := range all {
+		ast.Inspect(fd.Body, func(n ast.Node) bool {
+			if _, ok := n.(*ast.GoStmt); ok {
+				goCount++
+			}
+			return true
+		})
 	}
-	doneOK := first == "defer m.writers.Done()" && count(wr, "defer m.writers.Done()") == 1
-	// write: the files append sits between Lock and Unlock of filesLock
-	lockOK := has(wr, func(l []string, i int) bool {
-		return i+2 < len(l) && l[i] == "m.filesLock.Lock()" && l[i+1] == "m.files = append(m.files, f)" && l[i+2] == "m.filesLock.Unlock()"
+	pushOK = pushOK && goCount == 1 && funcs[writer] != nil
+	// the synchronous last write: Add(1) directly before m.<writer>(), writers.Wait() directly after
+	finOK := writer != "" && has(everywhere, func(l []string, i int) bool {
+		return i+2 < len(l) && reAdd.MatchString(l[i]) && regexp.MustCompile(`^\w+\.`+writer+`\(\)$`).MatchString(l[i+1]) && reWait.MatchString(l[i+2])
 	})
+	// the writer: the first statement defers Done (and it is the only Done)
+	doneOK := false
+	if fd := funcs[writer]; fd != nil && len(fd.Body.List) > 0 {
+		doneOK = reDone.MatchString(src(fd.Body.List[0])) && count(everywhere, reDone) == 1
+	}
+	// every append to the file list sits directly between Lock and Unlock of filesLock
+	appends := count(everywhere, reAppend)
+	locked := 0
+	for _, l := range everywhere {
+		for i := range l {
+			if reAppend.MatchString(l[i]) && i > 0 && i+1 < len(l) && reLock.MatchString(l[i-1]) && reUnlock.MatchString(l[i+1]) {
+				locked++
+			}
+		}
+	}
+	lockOK := appends >= 1 && locked == appends
 	// the error slot is only written through setErr under its lock: setErr exists and locks
 	setErrOK := false
 	if fd := funcs["setErr"]; fd != nil {
@@ -132,15 +164,16 @@ func morassFacts(repo string) (string, error) {
 	if b := funcs["Push"].Body.List; len(b) > 0 {
 		if is, ok := b[0].(*ast.IfStmt); ok && is.Init != nil && is.Else == nil && len(is.Body.List) == 1 {
 			_, ret := is.Body.List[0].(*ast.ReturnStmt)
-			typeFirst = ret && src(is.Init) == "typ := reflect.TypeOf(e)" && src(is.Cond) == "typ != m.typ"
+			mi := regexp.MustCompile(`^(\w+) := reflect\.TypeOf\(\w+\)$`).FindStringSubmatch(src(is.Init))
+			typeFirst = ret && mi != nil && regexp.MustCompile(`^`+mi[1]+` != \w+\.typ$`).MatchString(src(is.Cond))
 		}
 	}
 	var sb strings.Builder
 	sb.WriteString("namespace Biogo.Generated.MorassFacts\n\n")
-	fmt.Fprintf(&sb, "/-- Push: `m.writable <- m.chunk; m.writers.Add(1); go m.write()` consecutive, the only `go` -/\ndef pushAddsBeforeSpawn : Bool := %v\n", pushOK)
-	fmt.Fprintf(&sb, "/-- Finalise: `m.writers.Add(1); m.write(); m.writers.Wait()` consecutive -/\ndef finaliseAddsWritesThenWaits : Bool := %v\n", finOK)
-	fmt.Fprintf(&sb, "/-- write: first statement is `defer m.writers.Done()` -/\ndef writeDefersDoneFirst : Bool := %v\n", doneOK)
-	fmt.Fprintf(&sb, "/-- write: `m.files = append(m.files, f)` between filesLock.Lock and Unlock -/\ndef filesAppendUnderLock : Bool := %v\n", lockOK)
+	fmt.Fprintf(&sb, "/-- `m.writable <- m.chunk; m.writers.Add(1); go m.write()` consecutive (in Push or a helper), the only `go` of the file -/\ndef pushAddsBeforeSpawn : Bool := %v\n", pushOK)
+	fmt.Fprintf(&sb, "/-- `m.writers.Add(1); m.write(); m.writers.Wait()` consecutive (in Finalise or a helper) -/\ndef finaliseAddsWritesThenWaits : Bool := %v\n", finOK)
+	fmt.Fprintf(&sb, "/-- the spawned writer method: first statement is `defer m.writers.Done()`, the only Done -/\ndef writeDefersDoneFirst : Bool := %v\n", doneOK)
+	fmt.Fprintf(&sb, "/-- every `m.files = append(m.files, f)` directly between filesLock.Lock and Unlock -/\ndef filesAppendUnderLock : Bool := %v\n", lockOK)
 	fmt.Fprintf(&sb, "/-- setErr takes the error lock -/\ndef setErrLocks : Bool := %v\n", setErrOK)
 	fmt.Fprintf(&sb, "/-- Push: first statement is `if typ := reflect.TypeOf(e); typ != m.typ { return ... }` -/\ndef pushChecksTypeFirst : Bool := %v\n", typeFirst)
 	sb.WriteString("\nend Biogo.Generated.MorassFacts\n")
